@@ -36,7 +36,7 @@ def vdi_header(blocks_off, data_off, disk_size, block_size, nblocks, nalloc, sec
 def gen_recipe(rng: random.Random, tier: str, allow_parent=True, size=None, big=False):
     bs = rng.choice([512, 512, 1024, 4096, 4096, 8192, 16384, 65536] + ([1 << 20] if tier == "thorough" or big else []))
     if size is None:
-        nb = rng.choice([1, 2, 3, 4, 5, 8, 13, 24, 40] + ([300, 1100] if big else []))
+        nb = rng.choice([300, 1100, 2600]) if big else rng.choice([1, 2, 3, 4, 5, 8, 13, 24, 40])
         size = nb * bs - (rng.randrange(bs) if rng.random() < 0.4 else 0)
         size = max(size, 1)
     nb = (size + bs - 1) // bs + (rng.choice([0, 0, 1, 3]))
@@ -149,7 +149,7 @@ def generate(seed: int, tier: str):
     n = 240 if tier == "quick" else 3000
     cases = []
     for i in range(n):
-        big = (tier == "thorough" and i % 50 == 0) or (tier == "quick" and i % 80 == 0)
+        big = (i % 25 == 3)
         r = gen_recipe(rng, tier, big=big)
         align = rng.choice([8192] * 6 + [512, 4096, 65536, 1 << 20, 1536])
         cases.append({"id": f"g{i}", "recipe": r, "align": align, "queries": gen_queries(rng, r, 10 if tier == "quick" else 16)})
